@@ -69,6 +69,8 @@ TGameCmd ==
       /\ Chk("GameState", Tr[l].state = GameStateOf(g2), <<Tr[l].kind, "impl", Tr[l].state, "spec", GameStateOf(g2)>>)
       /\ Chk("DrawOffer", Tr[l].offer = HaveDrawOffer(g2), <<Tr[l].kind, Tr[l].offer>>)
       /\ Chk("Position", SameFide(Tr[l], CurPos(g2)), <<Tr[l].kind, Tr[l].ep, CurPos(g2).e>>)
+      /\ Chk("HistoryForTheEnginePlayer", Tr[l].histLen = HistLen(g2) /\ Tr[l].histFirstClock = HistFirstClock(g2),
+             <<Tr[l].kind, "impl", Tr[l].histLen, Tr[l].histFirstClock, "spec", HistLen(g2), HistFirstClock(g2)>>)
 
 TInit == l = 1 /\ g = NewGame(InitPos) /\ rootPs = <<InitPos, <<>>>>
 TNext == TMeta \/ TDrawRoot \/ TDrawInfo \/ TGameNew \/ TGameCmd
